@@ -83,6 +83,11 @@ META["C18"] = dict(
     note="Trusted: Lean kernel; the hand model Model/UePolicy.lean (tied by the correspondence run on generated wire inputs, values and all PLMNs in thorough); bytes.Buffer / binary.Read semantics modelled; IDGenerator is C20's subject.",
     technique="Lean 4 proof (totality with progress measures, three-level round trip by list induction, PLMN digit arithmetic) on a hand model + Go/Lean correspondence + totality/round-trip/PLMN-order oracle on the real code")
 
+META["C10"] = dict(
+    text="Kernel-checked over a heap-instrumented copy of the codec interpreter (heap = list of byte regions, input slice = one region, decoded Buffer = slice header into a region created by SetLen, Octet storage inside the message), for every table and so for the 45 regenerated on this run: decoding leaves every pre-existing region including the input untouched; every slice reachable from the decoded message lies in a region created during the call (fresh ids), hence mutating the input afterwards does not change the message and mutating the message does not change the input; rejected input yields the value-level error; the heap-free decoder of C01-C04 is the erasure of this one (simulation proved by induction over mandatory part and optional loop); the result depends only on the input contents; encoding appends the value-level encoding to the output region and changes no other region. On the real code the same facts are evaluated directly each run (aliasing is invisible to value comparison).",
+    note=CODEC_NOTE + " Modelled rather than verified: copy/alias semantics of bytes.NewBuffer, binary.Read, make, binary.Write. Pairwise distinctness of the regions of different IEs is not proved (each is fresh w.r.t. everything that existed when it was created).",
+    technique="Lean 4 proof (heap-instrumented interpreter, simulation/erasure theorem, freshness invariant) over regenerated tables + direct aliasing/mutation/determinism oracles on the real code")
+
 NOT_APPLICABLE = {
  "C01": "check not built yet in this round (Lean model + correspondence planned, see DESIGN.md section 4); not claimed until it runs",
  "C02": "check not built yet in this round (Lean model + correspondence planned, see DESIGN.md section 4); not claimed until it runs",
